@@ -171,12 +171,12 @@ func TestC05Exhaustive(t *testing.T) {
 	f := newFixture(t)
 	// shapes: parent index per block (-1 = genesis); tx: which user sends (shared users create conflicts)
 	shapes := [][]int{
-		{-1, 0, 1, 2},      // linear
-		{-1, 0, -1, 2},     // two branches of 2 from genesis
-		{-1, 0, 1, 0},      // side block from block 0 beside a longer main
-		{-1, -1, 1, 2},     // short main, longer side
-		{-1, 0, 0, 2, 3},   // fork at block 0, side overtakes
-		{-1, 0, -1, 2, 3},  // side from genesis overtakes a main of 2
+		{-1, 0, 1, 2},     // linear
+		{-1, 0, -1, 2},    // two branches of 2 from genesis
+		{-1, 0, 1, 0},     // side block from block 0 beside a longer main
+		{-1, -1, 1, 2},    // short main, longer side
+		{-1, 0, 0, 2, 3},  // fork at block 0, side overtakes
+		{-1, 0, -1, 2, 3}, // side from genesis overtakes a main of 2
 	}
 	count := 0
 	for si, shape := range shapes {
